@@ -433,6 +433,8 @@ class BasinProxyFeature(np.lib.mixins.NDArrayOperatorsMixin):
         self.feat_obj = feat_obj
         self.basinmap = basinmap
         self._cache = None
+        #: cache for the summaries returned by `min`, `max`, and `mean`
+        self._ufunc_attrs = {}
         self.is_scalar = bool(len(self.feat_obj.shape) == 1)
         #: events of ragged features (e.g. "contour") have different shapes
         self.is_ragged = any(
@@ -497,6 +499,27 @@ class BasinProxyFeature(np.lib.mixins.NDArrayOperatorsMixin):
 
     def __len__(self):
         return len(self.basinmap)
+
+    def _fetch_ufunc_attr(self, uname, ufunc):
+        """Compute (and cache) a summary of the mapped feature data
+
+        The summaries stored in the basin file describe all events of
+        the basin, not the mapped subset, so they cannot be used here.
+        """
+        val = self._ufunc_attrs.get(uname, None)
+        if val is None:
+            val = ufunc(self.__array__())
+            self._ufunc_attrs[uname] = val
+        return val
+
+    def max(self, *args, **kwargs):
+        return self._fetch_ufunc_attr("max", np.nanmax)
+
+    def mean(self, *args, **kwargs):
+        return self._fetch_ufunc_attr("mean", np.nanmean)
+
+    def min(self, *args, **kwargs):
+        return self._fetch_ufunc_attr("min", np.nanmin)
 
 
 def basin_priority_sorted_key(bdict: Dict):
